@@ -71,7 +71,8 @@ def step(op, kind):
         bystander = mk_obj("SymmetricKey", uid=2, owner="alice", state=ST.ACTIVE, masks=list(M))
         has_state = hasattr(o, "state")
         crypto = P.RecordingCrypto()
-        e, s = mk_engine([o, bystander], identity=("alice", None), version=version, crypto=crypto)
+        e, s = mk_engine([o, bystander], identity=("alice", None), version=version, crypto=crypto,
+                         session_cls=stubs.TxSession)
         code = CODES[ci]
         use_ph = bool(placeholder and op != "DERIVE_KEY")
         with NoTracing():                        # everything below is concrete on this path
@@ -83,11 +84,18 @@ def step(op, kind):
             b_before = snapshot(bystander)
             o_before = snapshot(o)
         ok = True
+        s.watch()
         try:
             e._process_operation(handler_op, payload)
         except Exception:
             ok = False
         reach()
+        # the state later requests (and a restarted server) see is the committed one: a reported
+        # transition that was never committed would silently revert (monotonicity across requests)
+        if ok and s.state() != s.committed:
+            return False
+        if not ok and s.state_commits:
+            return False
         # bystander never changes, never disappears
         if not any(x is bystander for x in s.objs) or snapshot(bystander) != b_before:
             return False
